@@ -182,6 +182,10 @@ func c06Build(c *engine.C, idx int) c06File {
 	}
 	add(decl + " {")
 	add("    private int n;")
+	if c.Bool(pfx + "ends-with-a-nested-type-named-Builder") {
+		// the last type declared in the file has the same simple name in every file that takes this option
+		body = append(body, "    static class Builder {\n        int b;\n    }")
+	}
 	for _, b := range body {
 		for _, l := range strings.Split(b, "\n") {
 			add(l)
